@@ -174,6 +174,24 @@ def check (c):
         worst = max (worst, d / 1e-9)
         if d > 1e-9:
             bad ('split', 'medium-split', 'splitting the medium at %s coordinate %.4g changes the pattern by %.3g of the maximum' % (bnd, cs, d), measured = d, allowed = 1e-9)
+    # ... and the lowered second medium of the two- and three-media forms
+    for name in ('2med', '3med'):
+        mo, po = pats [name]
+        media  = copy.deepcopy ([f for f in forms if f [0] == name][0][1])
+        bnd    = g ['boundary']
+        k      = 1
+        inner  = media [0][3]
+        outer  = media [1][3] if len (media [1]) > 3 else None
+        cs     = inner * 1.7 if outer is None else (inner + outer) / 2
+        piece  = media [1][:3]
+        media  = media [:1] + [piece + [cs], list (media [1])] + media [2:]
+        ms, _, _ = solved (spec, media, bnd)
+        ps = pattern (ms)
+        mon ['split'] = mon.get ('split', 0) + 1
+        d = np.abs (10 ** (ps [..., 2] / 10) - 10 ** (po [..., 2] / 10)).max () / (10 ** (po [..., 2] / 10)).max ()
+        worst = max (worst, d / 1e-9)
+        if d > 1e-9:
+            bad ('split', 'medium-split', 'form %s: splitting the second medium (height %.3g) at %s coordinate %.4g changes the pattern by %.3g of the maximum' % (name, piece [2], bnd, cs, d), measured = d, allowed = 1e-9)
     # ---- (d) append a medium beyond every reflection point
     for name, base_media, bnd, rad in (forms [0], forms [1], forms [3]):
         far = max_reflection (m1, bnd or g ['boundary'])
